@@ -17,7 +17,9 @@ NAMES = ["a", "b c", "ü", "d.txt", "sub", "x y", "é€", "l1", "l2", "deep", "
 FMODES = [0o400, 0o444, 0o600, 0o644, 0o640, 0o755, 0o700, 0o777, 0o500, 0o604]
 DMODES = [0o755, 0o700, 0o500, 0o555, 0o750, 0o711]
 MTIMES = [1000000000.0, 1234567890.5, 1234567890.25, 1600000000.123456, 1600000000.623456, 1500000000.000001, 946684800.0, 1700000001.75]   # incl. pairs within one second
-OUTS = ["/nonexistent/out0", "/var/tmp", "/etc/hostname"]
+# absolute link texts that do NOT lead into the source tree; {SRC} = the source directory: siblings that share its name as a prefix, and
+# a path that leaves it again through ".."
+OUTS = ["/nonexistent/out0", "/var/tmp", "/etc/hostname", "{SRC}.bak/data.txt", "{SRC}2", "{SRC}/../outside.txt"]
 
 
 # ---------------------------------------------------------------- trees as python values
@@ -114,7 +116,7 @@ def link_text(t, srcroot, destroot):
         return os.path.join(srcroot, *[NAMES[c] for c in p])
     if k == "dest":
         return os.path.join(destroot, *[NAMES[c] for c in p])
-    return OUTS[p]
+    return OUTS[p].replace("{SRC}", srcroot)
 
 
 class Unknown(Exception):
@@ -129,6 +131,9 @@ def name_idx(s):
 
 
 def parse_link(text, srcroot, destroot):
+    for i, o in enumerate(OUTS):
+        if text == o.replace("{SRC}", srcroot):
+            return ("l", "absout", i)
     if destroot and (text == destroot or text.startswith(destroot + "/")):
         rest = text[len(destroot):].strip("/")
         return ("l", "dest", [name_idx(c) for c in rest.split("/") if c])
@@ -150,7 +155,11 @@ def walk(path, srcroot, destroot):
     if stat.S_ISDIR(st.st_mode):
         return ("d", st.st_mode & 0o7777, {name_idx(n): walk(os.path.join(path, n), srcroot, destroot) for n in os.listdir(path)})
     if stat.S_ISLNK(st.st_mode):
-        return parse_link(os.readlink(path), srcroot, destroot)
+        try:
+            return parse_link(os.readlink(path), srcroot, destroot)
+        except Unknown:
+            # a link text that corresponds to nothing the generator can produce (e.g. a mangled one): compared as it is
+            return ("l", "other", os.readlink(path))
     raise Unknown("kind " + path)
 
 
@@ -175,6 +184,8 @@ def enc(t, mt):
     k, p = t[1], t[2]
     if k == "absout":
         return [2, 2, p]
+    if k == "other":
+        return [2, 2, 900 + (sum(map(ord, p)) % 97)]      # some absolute text outside everything the generator knows
     return [2, {"rel": 0, "absin": 1, "dest": 3}[k], len(p)] + list(p)
 
 
